@@ -202,6 +202,11 @@ func c11Docs(thorough bool) []planDoc {
 		}
 		docs = append(docs, planDoc{Title: E, Tasks: tasks})
 	}
+	// titles that contain what a program might use to glue two titles into a key: two different (task, after) pairs that
+	// spell the same text when joined by that separator
+	for _, sep := range []string{"->", "|", ":", ",", " ", "/", "\t", "=>", "\x1f"} {
+		docs = append(docs, planDoc{Title: E, Tasks: []planTask{{Title: sp("c")}, {Title: sp("b" + sep + "c")}, {Title: sp("a" + sep + "b"), After: []string{"c"}}, {Title: sp("a"), After: []string{"b" + sep + "c"}}}})
+	}
 	for _, et := range []*string{nil, sp(""), sp("  "), sp(" padded "), sp("Título \U0001F600")} {
 		docs = append(docs, planDoc{Title: et, Tasks: []planTask{{Title: sp("a")}}})
 	}
@@ -230,6 +235,18 @@ func init() {
 	}
 	for _, h := range []string{"}", "]", ",", "x", "1 ", "null ", "[] ", "{} ", "\ufeff"} {
 		c11Raw = append(c11Raw, h+good)
+	}
+	// a first document of every length around the read-buffer boundaries of a streaming decoder (512 doubling: 512,
+	// 1024, 1536, 2048, 3584, 4096, 7680, 8192), followed by a second document with and without a separator: what
+	// follows the first value must be noticed wherever the first value happens to end
+	second := `{"title":"Q","tasks":[{"title":"z"}]}`
+	for _, b := range []int{512, 1024, 1536, 2048, 3584, 4096, 7680, 8192} {
+		for n := b - 3; n <= b+3; n++ {
+			frame := `{"title":"P","tasks":[{"title":"a","body":""}]}`
+			pad := n - len(frame)
+			first := `{"title":"P","tasks":[{"title":"a","body":"` + strings.Repeat("p", pad) + `"}]}`
+			c11Raw = append(c11Raw, first+second, first+"\n"+second)
+		}
 	}
 }
 
@@ -443,6 +460,6 @@ func runC11(env *core.Env) {
 		"states":            len(pres), "transitions": evals, "traces_validated_against_impl": validated, "samples": samples.list,
 		"exhaustive": env.TimeLeft(), "documents": len(docs) + len(c11Raw), "accepted": acc, "rejected": rej, "outcome_classes": cls,
 		"unconfirmed_candidates": unconfirmed.Load(),
-		"bound":                  "all plan documents with 1-2 tasks over title variants {distinct, duplicate, case variant, trailing space, blank, missing, NFC/NFD} x `after` multisets (<=2) over {other, own, dangling, empty, case variant, trailing-space variant}; all 3-task documents with `after` multisets over the other two titles (every relation incl. cyclic) for distinct and duplicate titles; `after` sequences of length 3 that repeat a title with another in between; thorough: all 4096 relations on 4 tasks; body/epic-title variants; 22 structurally invalid payloads + a valid document followed by each of 20 stray tokens (4 separators) or preceded by each of 9; x 5 pre-stores (empty, rich, legacy file name, 2 torn tails)",
+		"bound":                  "all plan documents with 1-2 tasks over title variants {distinct, duplicate, case variant, trailing space, blank, missing, NFC/NFD} x `after` multisets (<=2) over {other, own, dangling, empty, case variant, trailing-space variant}; all 3-task documents with `after` multisets over the other two titles (every relation incl. cyclic) for distinct and duplicate titles; `after` sequences of length 3 that repeat a title with another in between; thorough: all 4096 relations on 4 tasks; body/epic-title variants; 22 structurally invalid payloads + a valid document followed by each of 20 stray tokens (4 separators) or preceded by each of 9 + first documents of every length within 3 bytes of 8 read-buffer boundaries followed by a second document; titles containing 9 would-be key separators; x 5 pre-stores (empty, rich, legacy file name, 2 torn tails)",
 	}, []string{"reference model: literal reading of the property (unique non-blank titles, after names another task, acyclic)"})
 }
